@@ -29,6 +29,10 @@ CHECKS = {
                 technique="exhaustive enumeration of the generic sub-grammar x instantiations (incl. arguments without TypeInfo where the property allows) with rustc as the transition function",
                 text="Every generic definition of the corpus (parameter used directly, in every built-in container, in PhantomData, through T::A and <T as Tr>::A, in self-referential positions; lifetimes, const parameters, defaults, inline bounds, where clauses; skip_type_params subsets; explicit bounds incl. bounds + where clause on the type; codec(skip) members / variants of types without type info; compact and encoded_as members of parameter type in both orders) must compile, and every listed instantiation (incl. NoInfo / NoInfoTr arguments) must register without panic with the modelled Some/None parameter pattern.",
                 note="Each definition is its own module; rustc JSON diagnostics attribute a compile error to the definition, which is then excluded and reported."),
+    "C04": dict(cat="exploration", design="§4 C04, §3.6", engine="gen/builting.py + gen/progs.py + harness/progrt",
+                technique="exhaustive enumeration of type expressions over the built-in constructors to a nesting-depth bound, compiled by rustc, x compositional boundary value domains; oracle: schema-directed reference decoder against trees derived from the documented shape of each constructor",
+                text="~5.4k (quick) / ~21k (thorough) type expressions: every leaf (12 integers, bool, String, unit, 10 NonZero*, Duration, 8 BitVec), 30 constructors applied to every leaf and twice over 4 leaves (all leaves / thrice over u8 in thorough), flat tuples of arity 2..18 with PhantomData members, unsized targets behind pointers, look-alike tuples (two different types with identical descriptions) in both orders; every value of the compositional domain must decode from the registry description alone with exact consumption to the expected tree. char and 19/20-tuples: documented shape only.",
+                note="Expected trees are written in the generator from the documented shape (e.g. BTreeMap = composite of one sequence of (K,V) tuples in key order; Duration = (u64, u32); NonZero = composite of the integer; Option None=0/Some=1; PhantomData members vanish)."),
     "C05": dict(cat="model_checking", design="§4 C05", engine=ENGINE,
                 technique="explicit-state exploration of registration histories with repetition over all alias families (U1, stateright) and all small type graphs (U2); oracle: hand-assigned identity labels, closure size, evaluation counters, no-op re-registration",
                 text="Over the same histories: (i) two registered universe members get the same id iff their hand-assigned model identity is the same (every Box/Rc/Arc/&/&mut/Vec/VecDeque/slice/String/str/PhantomData alias family incl. wrappers of wrappers, and same-constructor-different-argument families); (ii) entry count equals the number of distinct identities reachable (from the U2 specification for graphs, from type_info() graphs for U1); (iii) registering anything already present, as root or sub-type, returns the old id and leaves Debug(registry) byte-identical; (iv) thread-local counters in hand-written impls and in every U2 node show each definition evaluated at most once per registry.",
@@ -73,6 +77,10 @@ CHECKS = {
                 technique="exhaustive enumeration of all strings up to a length bound over a class-representative alphabet, all segment lists and replacement tables over representatives, against a hand-written DFA and list model",
                 text="All strings of length <= 7 (quick) / 8 (thorough) over a 10-symbol class-representative alphabet as single segments; all segment lists of length <= 3 (4) over 11 representative segments; Path::new over all ident x module-path combinations; new_with_replace over all replacement tables of <= 2 (3) entries. Oracle: DFA for (r#)?[A-Za-z_][A-Za-z0-9_]* and a list model for order / ident / namespace / display / first offending position / panic-iff-error.",
                 note="One representative per character class (lower, upper, underscore, digit, 'r', '#', ':', space, '-', non-ASCII); longer strings and other characters of the same class are assumed equivalent."),
+    "C20": dict(cat="exploration", design="§4 C20, §3.7", engine="gen/negative.py (rustc per program)",
+                technique="exhaustive enumeration of a negative grammar: each ill-formed construction in every builder position / attribute combination compiled on its own by rustc, paired with a well-formed twin",
+                text="600 (quick) / ~800 (thorough) programs: type without path, variant without index, field without type, named among unnamed and vice versa, field on unit fields — every interleaving with the optional setters, compile-time and portable builders, struct and variant contexts; derive: unions, unknown container attributes at every position, a repeated bounds / skip_type_params / capture_docs / crate within one list and across two or three lists, invalid capture_docs values, bounds leaving a non-skipped parameter unbound. Verdict per pair: the ill-formed program is rejected while the twin (differing only in the offending construct) is accepted.",
+                note="Field- and variant-level unknown scale_info attributes are outside the property (container attribute parser only) and not demanded. The diagnostic class is recorded, not demanded."),
 }
 
 NOT_YET = "check not built yet in this revision of /verif (planned in DESIGN.md §4; will be claimed once its engine exists)"
